@@ -314,19 +314,19 @@ func eqDOM(a, b []*xn) bool {
 func coqXNode(n *xn) string {
 	switch n.K {
 	case xText:
-		return "XText " + vh.CoqHex([]byte(n.Text))
+		return "XText " + cb([]byte(n.Text))
 	case xSkip:
 		return "XSkip"
 	}
 	as := []string{}
 	for _, a := range n.Attrs {
-		as = append(as, fmt.Sprintf("mkXA %s %s %s", vh.CoqHex([]byte(a.Pfx)), vh.CoqHex([]byte(a.Loc)), vh.CoqHex([]byte(a.Val))))
+		as = append(as, fmt.Sprintf("mkXA %s %s %s", cb([]byte(a.Pfx)), cb([]byte(a.Loc)), cb([]byte(a.Val))))
 	}
 	ks := []string{}
 	for _, k := range n.Kids {
 		ks = append(ks, coqXNode(k))
 	}
-	return fmt.Sprintf("XElem %s %s %s %s", vh.CoqHex([]byte(n.Pfx)), vh.CoqHex([]byte(n.Loc)), vh.CoqList(as), vh.CoqList(ks))
+	return fmt.Sprintf("XElem %s %s %s %s", cb([]byte(n.Pfx)), cb([]byte(n.Loc)), vh.CoqList(as), vh.CoqList(ks))
 }
 
 func coqXDoc(items []*xn) string {
@@ -354,16 +354,16 @@ func xmlTokens(text string) (coq []string, evs []string, err error) {
 			as := []string{}
 			ev := fmt.Sprintf("start %q %q", t.Name.Space, t.Name.Local)
 			for _, a := range t.Attr {
-				as = append(as, fmt.Sprintf("(%s, %s, %s)", vh.CoqHex([]byte(a.Name.Space)), vh.CoqHex([]byte(a.Name.Local)), vh.CoqHex([]byte(a.Value))))
+				as = append(as, fmt.Sprintf("(%s, %s, %s)", cb([]byte(a.Name.Space)), cb([]byte(a.Name.Local)), cb([]byte(a.Value))))
 				ev += fmt.Sprintf(" attr %q %q %q", a.Name.Space, a.Name.Local, a.Value)
 			}
-			coq = append(coq, fmt.Sprintf("XTStart %s %s %s", vh.CoqHex([]byte(t.Name.Space)), vh.CoqHex([]byte(t.Name.Local)), vh.CoqList(as)))
+			coq = append(coq, fmt.Sprintf("XTStart %s %s %s", cb([]byte(t.Name.Space)), cb([]byte(t.Name.Local)), vh.CoqList(as)))
 			evs = append(evs, ev)
 		case xml.EndElement:
-			coq = append(coq, fmt.Sprintf("XTEnd %s %s", vh.CoqHex([]byte(t.Name.Space)), vh.CoqHex([]byte(t.Name.Local))))
+			coq = append(coq, fmt.Sprintf("XTEnd %s %s", cb([]byte(t.Name.Space)), cb([]byte(t.Name.Local))))
 			evs = append(evs, "end")
 		case xml.CharData:
-			coq = append(coq, "XTChar "+vh.CoqHex([]byte(t)))
+			coq = append(coq, "XTChar "+cb([]byte(t)))
 			evs = append(evs, fmt.Sprintf("char %q", string(t)))
 		default:
 			coq = append(coq, "XTOther")
@@ -482,7 +482,7 @@ func runXML(sum *vh.Summary, cw *vh.CaseWriter, text string, gen []*xn, verbose 
 			fail("well-formed XML document was not read into a node tree", obs["read_err"])
 		case n != nil:
 			root := vh.Root(n)
-			obs["tree"] = vh.CoqTree(root)
+			obs["tree"] = coqTree(root)
 			// (a) faithful to the token stream, whatever the namespaces
 			var tev []string
 			treeEvents(root, &tev)
@@ -516,8 +516,8 @@ func runXML(sum *vh.Summary, cw *vh.CaseWriter, text string, gen []*xn, verbose 
 	// ---- correspondence case ----
 	tree, elem, ifs := "None", "None", "JNull"
 	if n != nil {
-		tree = "(Some " + vh.CoqTree(vh.Root(n)) + ")"
-		elem = "(Some " + vh.CoqTree(n) + ")"
+		tree = "(Some " + coqTree(vh.Root(n)) + ")"
+		elem = "(Some " + coqTree(n) + ")"
 		s, ok := coqIface(ifc, nil)
 		if !ok {
 			fail("J2NodeToInterface returned something that is not a JSON value", nil)
@@ -533,7 +533,7 @@ func runXML(sum *vh.Summary, cw *vh.CaseWriter, text string, gen []*xn, verbose 
 	if verbose {
 		fmt.Printf("xml text: %q\n guard(ns_wf && uri_single_prefix)=%v read_err=%v\n", text, guard, readErr)
 		if n != nil {
-			fmt.Printf(" implementation tree: %s\n reference DOM diff: %q\n", vh.CoqTree(vh.Root(n)), diffTree(vh.Root(n), refDoc(dom), ""))
+			fmt.Printf(" implementation tree: %s\n reference DOM diff: %q\n", coqTree(vh.Root(n)), diffTree(vh.Root(n), refDoc(dom), ""))
 		}
 	}
 	return
